@@ -7,6 +7,7 @@ import PieModel.Build.Pie
 import PieModel.Build.Script
 import PieModel.Build.StdSem
 import PieModel.Build.ScriptWF.Defs
+import PieModel.Build.ScriptCov.Defs
 
 namespace Driver
 open PieModel
@@ -275,7 +276,7 @@ def stepB (b : BState) (line : String) : Option BState :=
 `Props/ScriptWF.lean`) evaluated on the program table of the case. -/
 def hypLine (tbl : List (Nat × Script)) : String :=
   let b := fun (x : Bool) => if x then "1" else "0"
-  s!"m: hyp wf={b (Table.wfB tbl)} free={b (Table.wfFreeB tbl)} static={b (Table.staticRolesB tbl)} total={b (Table.stampTotalB tbl)} nofail={b (Table.noFailB tbl)}"
+  s!"m: hyp wf={b (Table.wfB tbl)} free={b (Table.wfFreeB tbl)} static={b (Table.staticRolesB tbl)} total={b (Table.stampTotalB tbl)} nofail={b (Table.noFailB tbl)} cov={b (Table.covB tbl)}"
 
 def runBuildCase (lines : List String) : List String :=
   let rec go (b : BState) : List String → List String
